@@ -51,7 +51,7 @@ C("mako.runtime:_lookup_template",
             "same(result, looked_up(context._with_template.lookup, adjusted_uri(uri, relativeto)))"),
            ("data-untouched", "context._data == old(context._data)")],
   raises={"TemplateLookupException": {}, "IndexError": {"when": "len(uri) == 0"}, "*": {}},
-  props=["C07", "C09"])
+  props=["C07", "C09"], native_skip=True)
 
 ASSUME("mako.runtime:TemplateNamespace.__init__",
        params={"self": "TemplateNamespace", "name": "Str", "context": "Context", "template": "Opt[Obj[Template]]",
@@ -70,6 +70,10 @@ FUNSPEC("mako_inherit",
         ensures=[("logged", "G.inh_truthy == (result is not None) and implies(result is not None, same(G.inh_callable, result[0]) and same(G.inh_ctx, result[1]))"),
                  ("only-parent-changes",
                   "forall(lambda k: implies(k != 'parent', (k in ctx._data) == (k in old(ctx._data)) and same(ctx._data[k], old(ctx._data)[k])), ty='Str')"),
+                 ("result-context-is-new-or-the-given-one",
+                  "implies(result is not None, fresh(result[1]) or same(result[1], ctx))"),
+                 ("result-context-same-render",
+                  "implies(result is not None, same(result[1]._with_template, ctx._with_template) and same(result[1]._outputting_as_unicode, ctx._outputting_as_unicode))"),
                  ("result-context-shares-stacks",
                   "implies(result is not None, same(result[1]._buffer_stack, ctx._buffer_stack) and same(result[1].caller_stack, ctx.caller_stack) and len(result[1]._buffer_stack) == len(ctx._buffer_stack))"),
                  ("stack-untouched", "ctx._buffer_stack == old(ctx._buffer_stack)")],
@@ -96,9 +100,12 @@ C("mako.runtime:_populate_self_namespace",
             "implies(template.module._mako_inherit is not None, ite(G.inh_truthy, same(result[0], G.inh_callable) and same(result[1], G.inh_ctx), same(result[0], template.callable_) and same(result[1], context)))"),
            ("result-context-shares-stacks",
             "same(result[1]._buffer_stack, context._buffer_stack) and same(result[1].caller_stack, context.caller_stack)"),
+           ("result-context-is-new-or-the-given-one", "fresh(result[1]) or same(result[1], context)"),
+           ("result-context-same-render",
+            "same(result[1]._with_template, context._with_template) and same(result[1]._outputting_as_unicode, context._outputting_as_unicode)"),
            ("stack-untouched", "context._buffer_stack == old(context._buffer_stack)")],
   raises={"*": {"ensures": [("stack-untouched", "context._buffer_stack == old(context._buffer_stack)")]}},
-  props=["C06", "C07"])
+  props=["C06", "C07"], native_skip=True)
 
 # ---------------------------------------------------------------------------------------
 FUNSPEC("error_handler",
@@ -117,7 +124,7 @@ C("mako.runtime:_include_file",
   requires=[("has-template", "context._with_template is not None"),
             ("stack-nonempty", "len(context._buffer_stack) >= 1")],
   modifies=_INC_MOD + ["kwargs", "heap('f:Namespace.inherits')", "heap('f:Namespace.name')", "heap('f:Namespace.context')",
-                       "heap('f:Namespace.template')", "heap('f:Namespace._templateuri')", "heap('ddom:Str~Any')", "heap('dval:Str~Any')"]
+                       "heap('f:Namespace.template')", "heap('f:Namespace._templateuri')"]
   + RC_G + EH_G + INH_G,
   ensures=_INC_POST + [("includer-data-untouched", "context._data == old(context._data)"),
                        ("swallowed-only-on-true-verdict",
@@ -125,12 +132,17 @@ C("mako.runtime:_include_file",
   raises={"*": {"ensures": _INC_POST + [("includer-data-untouched", "context._data == old(context._data)"),
                                         ("reraised-unchanged-unless-swallowed",
                                          "implies(G.nraised > old(G.nraised) and G.verdicts == old(G.verdicts) + 1 and same(G.last_judged, G.last_raised), (not G.last_verdict) and same(raised, G.last_raised))")]}},
-  props=["C07", "C13"])
+  props=["C07", "C13"], native_skip=True)
 
 ASSUME("mako.runtime:_render_error",
        params={"template": "Template", "context": "Context", "error": "Any"},
        modifies=_INC_MOD + ["ptr(context._with_template)", "G.verdicts", "G.last_verdict", "G.last_judged"],
-       ensures=[("cstack-same", "context.caller_stack == old(context.caller_stack)")],
+       ensures=[("cstack-same", "context.caller_stack == old(context.caller_stack)"),
+                ("a-buffer-remains", "len(context._buffer_stack) >= 1"),
+                ("handler-path-keeps-buffers",
+                 "implies(template.error_handler is not None, context._buffer_stack == old(context._buffer_stack) and forall(lambda b: implies(0 < b and b < old(alloc), same(bufdata(b), old(bufdata(b))) and bufenc(b) == old(bufenc(b)))))"),
+                ("error-page-in-unicode-when-rendering-unicode",
+                 "implies(template.error_handler is None and truthy(old(context._outputting_as_unicode)), bufenc(context._buffer_stack[len(context._buffer_stack) - 1]) is None)")],
        raises={"*": {"ensures": [("cstack-same", "context.caller_stack == old(context.caller_stack)")]}},
        note="_render_error (sys.exc_info / with_traceback / error-template rendering) is outside the subset: "
             "assumed to leave the caller stack alone; its behaviour is covered by the bounded C13 grid")
@@ -141,6 +153,12 @@ C("mako.runtime:_exec_template",
   modifies=_INC_MOD + ["ptr(context._with_template)"] + RC_G + EH_G,
   ensures=[("cstack-same", "context.caller_stack == old(context.caller_stack)"),
            ("runs-exactly-the-given-callable", "G.ncalls == old(G.ncalls) + 1 and same(G.last_called, callable_) and same(G.last_ctx, context)"),
+           ("a-buffer-remains", "len(context._buffer_stack) >= 1"),
+           ("raise-count-monotone", "G.nraised >= old(G.nraised)"),
+           ("no-exception-keeps-stack-and-buffers",
+            "implies(G.nraised == old(G.nraised), context._buffer_stack == old(context._buffer_stack) and forall(lambda b: implies(0 < b and b < old(alloc), same(bufdata(b), old(bufdata(b))) and bufenc(b) == old(bufenc(b)))))"),
+           ("error-page-in-unicode-when-rendering-unicode",
+            "implies(G.nraised > old(G.nraised) and old(context._with_template) is not None and old(context._with_template).error_handler is None and truthy(old(context._outputting_as_unicode)), bufenc(context._buffer_stack[len(context._buffer_stack) - 1]) is None)"),
            ("plain-call-keeps-stack",
             "implies(old(context._with_template) is None or not (truthy(old(context._with_template).format_exceptions) or old(context._with_template).error_handler is not None), context._buffer_stack == old(context._buffer_stack) and same(context._with_template, old(context._with_template)))"),
            ("plain-call-never-swallows",
@@ -149,7 +167,7 @@ C("mako.runtime:_exec_template",
                             ("runs-exactly-the-given-callable", "G.ncalls == old(G.ncalls) + 1 and same(G.last_called, callable_) and same(G.last_ctx, context)"),
                             ("plain-call-propagates-the-same-exception",
                              "implies(old(context._with_template) is None or not (truthy(old(context._with_template).format_exceptions) or old(context._with_template).error_handler is not None), G.nraised == old(G.nraised) + 1 and same(raised, G.last_raised) and context._buffer_stack == old(context._buffer_stack))")]}},
-  props=["C13"])
+  props=["C13"], native_skip=True)
 
 
 # opaque render callables log what they raise (ghost), so that callers can be specified
@@ -178,9 +196,41 @@ C("mako.runtime:_render_context",
   params={"tmpl": "Template", "callable_": "Fun[render_callable]", "context": "Context", "*args": "Star", "**kwargs": "Star"},
   requires=[("stack-nonempty", "len(context._buffer_stack) >= 1"),
             ("def-has-parent", "implies(dyn_is_def_template(tmpl), tmpl.parent is not None)")],
-  modifies=_INC_MOD + ["heap('f:Context._with_template')", "context._data", "heap('f:Namespace.inherits')", "heap('f:Namespace.name')",
-                       "heap('f:Namespace.context')", "heap('f:Namespace.template')", "heap('f:Namespace._templateuri')",
-                       "heap('ddom:Str~Any')", "heap('dval:Str~Any')"] + RC_G + EH_G + INH_G,
-  ensures=[("one-callable-run", "G.ncalls == old(G.ncalls) + 1")] + _RC_CASES,
+  modifies=_INC_MOD + ["ptr(context._with_template)", "fresh_heap('f:Context._with_template')", "context._data", "heap('f:Namespace.inherits')", "heap('f:Namespace.name')",
+                       "heap('f:Namespace.context')", "heap('f:Namespace.template')", "heap('f:Namespace._templateuri')"]
+                       + RC_G + EH_G + INH_G,
+  ensures=[("one-callable-run", "G.ncalls == old(G.ncalls) + 1"),
+           ("a-buffer-remains", "len(context._buffer_stack) >= 1"),
+           ("raise-count-monotone", "G.nraised >= old(G.nraised)"),
+           ("no-exception-keeps-stack-and-buffers",
+            "implies(G.nraised == old(G.nraised), context._buffer_stack == old(context._buffer_stack) and forall(lambda b: implies(0 < b and b < old(alloc), same(bufdata(b), old(bufdata(b))) and bufenc(b) == old(bufenc(b)))))"),
+           ("error-page-in-unicode-when-rendering-unicode",
+            "implies(G.nraised > old(G.nraised) and old(context._with_template) is not None and old(context._with_template).error_handler is None and truthy(old(context._outputting_as_unicode)), bufenc(context._buffer_stack[len(context._buffer_stack) - 1]) is None)"),
+           ] + _RC_CASES,
   raises={"*": {"ensures": [("at-most-one-callable-run", "G.ncalls <= old(G.ncalls) + 1")]}},
-  props=["C06", "C13"])
+  props=["C06", "C13"], native_skip=True)
+
+_RESERVED_HIT = "exists(lambda k: k in template.reserved_names and (k in data or k == 'capture' or k == 'caller'), ty='Str')"
+
+C("mako.runtime:_render",
+  params={"template": "Template", "callable_": "Fun[render_callable]", "args": "Star", "data": "Dict[Str,Any]",
+          "as_unicode": "Bool"},
+  returns="Any",
+  requires=[("def-has-parent", "implies(dyn_is_def_template(template), template.parent is not None)")],
+  modifies=["heap('list:Str')", "heap('f:FastEncodingBuffer.data')", "heap('f:FastEncodingBuffer.write')",
+            "heap('f:FastEncodingBuffer.encoding')",
+            "heap('f:Namespace.inherits')", "heap('f:Namespace.name')", "heap('f:Namespace.context')",
+            "heap('f:Namespace.template')", "heap('f:Namespace._templateuri')"]
+  + RC_G + EH_G + INH_G,
+  ensures=[("render_unicode-returns-str",
+            "implies(as_unicode and template.error_handler is None, is_boxed_str(result))"),
+           ("str-without-output-encoding",
+            "implies(not truthy(template.output_encoding) and G.nraised == old(G.nraised), is_boxed_str(result))"),
+           ("bytes-with-output-encoding",
+            "implies(not as_unicode and truthy(template.output_encoding) and G.nraised == old(G.nraised), is_boxed_bytes(result))"),
+           ("caller-data-untouched", "data == old(data)"),
+           ("no-reserved-name-passed", "not %s" % _RESERVED_HIT)],
+  raises={"NameConflictError": {"when": _RESERVED_HIT,
+                                "ensures": [("before-any-template-code-runs", "G.ncalls == old(G.ncalls)")]},
+          "*": {"ensures": [("reserved-names-rejected-first", "implies(%s, G.ncalls == old(G.ncalls))" % _RESERVED_HIT)]}},
+  props=["C04", "C18"], native_skip=True)
